@@ -4,6 +4,7 @@
 From Coq Require Import List ZArith Bool Permutation.
 From RtoscV Require Ports.NameModel.
 From RtoscV Require Import Save.TopoModel Save.KahnProofs Save.TopoProofs Save.TopoEdges Save.TopoPerm Save.TopoTree Save.TopoRegress.
+From RtoscV Require Save.DeclModel Save.DeclProofs.
 From RtoscV Require Import Save.SaveModel Save.SaveProofs Save.RoundFull Save.CommuteProofs Save.PermApp.
 Import ListNotations.
 
@@ -149,3 +150,33 @@ Theorem C13_nonvacuous :
   let ms := [([47; 98]%Z, tt); ([47; 97]%Z, tt)] in
   pushes unit ap 8 ms = Some [(1%nat, 0%nat)] /\ load_order ap 8 ms = Some [1%nat; 0%nat].
 Proof. exact (conj eq_refl eq_refl). Qed.
+
+(* regression (D28): before fix a3fd6a3 a sub-tree enabled by a port inside itself
+   ("s/on" on "s/") made the scan of every message below it recurse for ever when
+   that port had no line, and made the port wait for itself when it had one *)
+Theorem C13_inner_switch_before_fix_refuted :
+  scan_deps_old3 apropos_ex3 [p_sx] 60 p_sx = None /\
+  scan_deps apropos_ex3 [p_sx] 60 p_sx p_sx = Some [] /\
+  scan_deps_old3 apropos_ex3 [p_son; p_sx] 60 p_son = Some [p_son] /\
+  scan_deps apropos_ex3 [p_son; p_sx] 60 p_son p_son = Some [] /\
+  scan_deps apropos_ex3 [p_son; p_sx] 60 p_sx p_sx = Some [p_son].
+Proof. exact inner_switch_before_fix_refuted. Qed.
+
+(* what remains excluded by C13_topo's premises (D31): on cyclic metadata - the
+   switch inside the sub-tree depends on a port of that sub-tree - the scan does
+   not end when the ports of the cycle have no line, and each waits for the other
+   when they have *)
+Theorem C13_cyclic_metadata_scan_does_not_end :
+  scan_deps apropos_ex4 [p_sx] 200 p_sx p_sx = None /\
+  scan_deps apropos_ex4 [p_son; p_sp] 200 p_son p_son = Some [p_sp] /\
+  scan_deps apropos_ex4 [p_son; p_sp] 200 p_sp p_sp = Some [p_son].
+Proof. exact cyclic_metadata_scan_does_not_end. Qed.
+
+(* `declared` - the hypothesis of C13_perm_invariant and of C12's sorted pipeline - is
+   decidable for a finite application and a lookup function: the tie evaluates
+   [declared_b a (apropos_of_tree root)] on every generated application (model driver) *)
+Theorem C13_declared_computed : forall a apropos,
+  (DeclModel.declared_b a apropos = true -> declared a apropos) /\
+  ((forall i j, (j < length a)%nat -> must_precede a i j -> (i < length a)%nat) ->
+   declared a apropos -> DeclModel.declared_b a apropos = true).
+Proof. exact (fun a ap => conj (DeclProofs.declared_b_sound a ap) (DeclProofs.declared_b_complete a ap)). Qed.
